@@ -244,7 +244,7 @@ static void writer_space(
 // extractor: every derivation of depth <= D of
 //   T ::= class-name | fundamental | T* | T& | T const | T const& | T volatile
 //       | tmpl<T> | ns::tmpl<T, T> | std::x<T> | yorel::yomm2::virtual_<T>
-//       | T (T, T) | T (*)(T)
+//       | T (T, T) | T (*)(T) | tmpl<T, literal> | T [n]
 // spelled the way boost::core::demangle spells types.
 
 struct Ty {
@@ -276,6 +276,12 @@ static std::vector<Ty> derive(const std::vector<Ty>& from, bool full) {
         out.push_back({"std::shared_ptr<" + t.text + ">", t.classes});
         out.push_back({"yorel::yomm2::virtual_<" + t.text + "&>", t.classes});
         out.push_back({"void (*)(" + t.text + ")", t.classes});
+        // non-type template arguments and array bounds, as the demangler spells them
+        out.push_back({"flag<" + t.text + ", true>", t.classes});
+        out.push_back({"flag<false, " + t.text + ">", t.classes});
+        out.push_back({"buf<" + t.text + ", 2ul>", t.classes});
+        out.push_back({"ch<" + t.text + ", (char)65, -1, 10l>", t.classes});
+        out.push_back({t.text + " [3]", t.classes});
     }
     if (full)
         for (size_t i = 0; i < from.size(); ++i)
